@@ -1,19 +1,638 @@
-//! Engine `autoalloc` (see /verif/DESIGN.md section 5). Entry points used by main.rs.
+//! Engine `autoalloc` (C17, C18): the real autoalloc state machine (`AutoAllocState`,
+//! `handle_message`, `perform_submits`, `do_periodic_update`, rate limiter) and the real tako
+//! worker query against a simulated batch system, simulated workers and a simulated clock.
+//! See /verif/DESIGN.md section 10.
 
-use crate::batch::CheckArgs;
+mod genr;
+mod oracle;
+mod spec;
+mod world;
+
+use std::collections::{BTreeMap, BTreeSet};
+use std::hash::{Hash, Hasher};
 use std::path::Path;
+use std::process::Command;
+use std::time::Instant;
+
+use serde::{Deserialize, Serialize};
+
+use crate::batch::{CheckArgs, load_known_findings, signature_matches, write_json};
+use crate::sim::panic::catch;
+use crate::sim::rng::mix;
+
+use genr::{Gen, PROFILES, Profile};
+use oracle::{Checker, Finding};
+use spec::Step;
+use world::World;
 
 /// Property ids this engine decides
-pub const PROPERTIES: &[&str] = &[];
+pub const PROPERTIES: &[&str] = &["C17", "C18"];
 
-/// Runs the check of `args.property`; returns the process exit code (0 / 1 / 2).
-pub fn check(_args: &CheckArgs) -> i32 {
-    eprintln!("engine autoalloc: not implemented yet");
-    2
+const ENGINE_TAG: u64 = 4;
+const QUICK_RUNS: u64 = 16_000;
+const THOROUGH_RUNS: u64 = 500_000;
+/// every n-th run is executed twice and its log compared
+const RECHECK_EVERY: u64 = 50;
+
+fn property_tag(p: &str) -> u64 {
+    p.trim_start_matches('C').parse().unwrap_or(0)
+}
+
+#[derive(Serialize, Deserialize)]
+struct ReplayFile {
+    engine: String,
+    property: String,
+    seed: u64,
+    index: u64,
+    profile: Profile,
+    signature: String,
+    message: String,
+    steps: Vec<Step>,
+}
+
+struct RunOutput {
+    steps: Vec<Step>,
+    findings: Vec<Finding>,
+    harness_error: Option<String>,
+    log_hash: u64,
+    sim_s: u64,
+    states: BTreeSet<u64>,
+    probes: BTreeMap<&'static str, u64>,
+    faults: BTreeMap<&'static str, u64>,
+    submissions: u64,
+    lines: Vec<String>,
+}
+
+enum Source<'a> {
+    Generate(Gen),
+    Fixed(&'a [Step]),
+}
+
+fn hash_of<T: Hash>(v: &T) -> u64 {
+    let mut h = std::collections::hash_map::DefaultHasher::new();
+    v.hash(&mut h);
+    h.finish()
+}
+
+/// Executes one run. `property`: findings of other properties are dropped.
+fn run(mut source: Source, property: &str, verbose: bool) -> RunOutput {
+    let mut out = RunOutput {
+        steps: Vec::new(),
+        findings: Vec::new(),
+        harness_error: None,
+        log_hash: 0,
+        sim_s: 0,
+        states: BTreeSet::new(),
+        probes: BTreeMap::new(),
+        faults: BTreeMap::new(),
+        submissions: 0,
+        lines: Vec::new(),
+    };
+    let mut world = match catch(World::new) {
+        Ok(w) => w,
+        Err(p) => {
+            out.harness_error = Some(format!("world creation panicked: {p:?}"));
+            return out;
+        }
+    };
+    let mut checker = Checker::new();
+    let mut idx = 0usize;
+    let mut log = std::collections::hash_map::DefaultHasher::new();
+    loop {
+        let step = match &mut source {
+            Source::Generate(g) => {
+                if idx >= g.steps_planned {
+                    break;
+                }
+                match catch(|| g.next(&world)) {
+                    Ok(s) => s,
+                    Err(p) => {
+                        out.harness_error = Some(format!("generator panicked: {p:?}"));
+                        break;
+                    }
+                }
+            }
+            Source::Fixed(steps) => {
+                if idx >= steps.len() {
+                    break;
+                }
+                steps[idx].clone()
+            }
+        };
+        out.steps.push(step.clone());
+        let obs = catch(|| world.execute(&step));
+        match obs {
+            Ok(obs) => {
+                let line = format!(
+                    "{idx:4} t={:>6}s {:?} -> {:?} calls={:?} events={:?}",
+                    obs.now_s, step, obs.resp, obs.calls, obs.events
+                );
+                line.hash(&mut log);
+                format!("{:?}", obs.after).hash(&mut log);
+                if verbose {
+                    out.lines.push(line);
+                    out.lines.push(format!("       state: {:?}", obs.after));
+                }
+                out.submissions += obs
+                    .calls
+                    .iter()
+                    .filter(|c| matches!(c, world::Call::Submit { .. }))
+                    .count() as u64;
+                let n_before = checker.findings.len();
+                match catch(|| checker.after_step(idx, &step, &obs)) {
+                    Ok(()) => {}
+                    Err(p) => {
+                        out.harness_error = Some(format!("oracle panicked: {p:?}"));
+                        break;
+                    }
+                }
+                if verbose {
+                    for f in &checker.findings[n_before..] {
+                        out.lines.push(format!(
+                            "       FINDING {} {}: {}",
+                            f.property,
+                            f.signature(),
+                            f.message
+                        ));
+                    }
+                }
+                // abstract state: per queue (paused, allocations per rank, limiter level)
+                let abs: Vec<(bool, [usize; 4], usize, u64, u64)> = obs
+                    .after
+                    .queues
+                    .iter()
+                    .map(|q| {
+                        let mut ranks = [0usize; 4];
+                        for a in &q.allocs {
+                            ranks[a.rank as usize] += 1;
+                        }
+                        (q.paused, ranks, q.limiter.0, q.limiter.2.min(3), q.limiter.3.min(10))
+                    })
+                    .collect();
+                out.states.insert(hash_of(&abs));
+                out.sim_s = obs.now_s;
+            }
+            Err(p) => {
+                if p.in_harness() {
+                    out.harness_error = Some(format!("harness panicked at step {idx} ({step:?}): {p:?}"));
+                } else {
+                    checker.panic(idx, property, &p.location(), &p.message);
+                    if verbose {
+                        out.lines.push(format!("{idx:4} {step:?} -> PANIC {p:?}"));
+                    }
+                }
+                break;
+            }
+        }
+        idx += 1;
+    }
+    out.log_hash = log.finish();
+    out.findings = checker
+        .findings
+        .into_iter()
+        .filter(|f| f.property == property)
+        .collect();
+    out.probes = checker.probes;
+    out.faults = checker.faults;
+    out
+}
+
+fn run_seed_of(verif_seed: u64, property: &str, index: u64) -> u64 {
+    mix(&[verif_seed, ENGINE_TAG, property_tag(property), index])
+}
+
+fn profile_of(index: u64) -> Profile {
+    PROFILES[(index % PROFILES.len() as u64) as usize]
+}
+
+fn fires(steps: &[Step], property: &str, signature: &str) -> bool {
+    let out = run(Source::Fixed(steps), property, false);
+    out.findings.iter().any(|f| f.signature() == signature)
+}
+
+/// Prefix cut + ddmin-style chunk removal while the same signature fires
+fn shrink(steps: Vec<Step>, property: &str, signature: &str, fired_at: usize) -> Vec<Step> {
+    let mut cur: Vec<Step> = steps.into_iter().take(fired_at + 1).collect();
+    if !fires(&cur, property, signature) {
+        return cur;
+    }
+    let mut chunk = (cur.len() / 2).max(1);
+    let deadline = Instant::now() + std::time::Duration::from_secs(120);
+    while chunk >= 1 && Instant::now() < deadline {
+        let mut i = 0;
+        let mut removed_any = false;
+        while i < cur.len() && Instant::now() < deadline {
+            let end = (i + chunk).min(cur.len());
+            let mut cand = cur.clone();
+            cand.drain(i..end);
+            if !cand.is_empty() && fires(&cand, property, signature) {
+                cur = cand;
+                removed_any = true;
+            } else {
+                i = end;
+            }
+        }
+        if chunk == 1 && !removed_any {
+            break;
+        }
+        if !removed_any || chunk > 1 {
+            chunk = if chunk == 1 { 1 } else { chunk / 2 };
+        }
+    }
+    // simplify arguments: task counts and advance amounts
+    for i in 0..cur.len() {
+        if let Step::Tasks { job, count, rq } = &cur[i]
+            && *count > 1
+        {
+            let mut cand = cur.clone();
+            cand[i] = Step::Tasks {
+                job: *job,
+                count: 1,
+                rq: rq.clone(),
+            };
+            if fires(&cand, property, signature) {
+                cur = cand;
+            }
+        }
+    }
+    cur
+}
+
+struct ThreadOut {
+    /// (index, signature, message, step)
+    findings: Vec<(u64, String, String, usize)>,
+    harness_errors: Vec<(u64, String)>,
+    runs: u64,
+    steps: u64,
+    sim_s: u64,
+    submissions: u64,
+    nontrivial: u64,
+    states: BTreeSet<u64>,
+    logs: BTreeSet<u64>,
+    probes: BTreeMap<&'static str, u64>,
+    faults: BTreeMap<&'static str, u64>,
+    per_profile: BTreeMap<String, u64>,
+    rechecks: u64,
+    step_kinds: BTreeMap<&'static str, u64>,
+    samples: Vec<serde_json::Value>,
+}
+
+pub fn check(args: &CheckArgs) -> i32 {
+    crate::sim::panic::install_hook();
+    let property = args.property.as_str();
+    if let Ok(v) = std::env::var("HQSIM_AUTOALLOC_ONE")
+        && let Ok(index) = v.parse::<u64>()
+    {
+        debug_one(property, index, args.seed);
+        return 0;
+    }
+    let started = Instant::now();
+    let runs = args.runs_override.unwrap_or(if args.tier == "thorough" {
+        THOROUGH_RUNS
+    } else {
+        QUICK_RUNS
+    });
+    let jobs = args.jobs.max(1);
+    let verif_seed = args.seed;
+
+    let outs: Vec<ThreadOut> = std::thread::scope(|scope| {
+        let handles: Vec<_> = (0..jobs)
+            .map(|t| {
+                scope.spawn(move || {
+                    let mut o = ThreadOut {
+                        findings: Vec::new(),
+                        harness_errors: Vec::new(),
+                        runs: 0,
+                        steps: 0,
+                        sim_s: 0,
+                        submissions: 0,
+                        nontrivial: 0,
+                        states: BTreeSet::new(),
+                        logs: BTreeSet::new(),
+                        probes: BTreeMap::new(),
+                        faults: BTreeMap::new(),
+                        per_profile: BTreeMap::new(),
+                        rechecks: 0,
+                        step_kinds: BTreeMap::new(),
+                        samples: Vec::new(),
+                    };
+                    let mut index = t;
+                    while index < runs {
+                        let seed = run_seed_of(verif_seed, property, index);
+                        let profile = profile_of(index);
+                        let out = run(Source::Generate(Gen::new(seed, profile)), property, false);
+                        o.runs += 1;
+                        o.steps += out.steps.len() as u64;
+                        o.sim_s += out.sim_s;
+                        o.submissions += out.submissions;
+                        if out.submissions > 0 {
+                            o.nontrivial += 1;
+                            o.logs.insert(out.log_hash);
+                        }
+                        *o.per_profile.entry(format!("{profile:?}")).or_insert(0) += 1;
+                        for s in &out.steps {
+                            *o.step_kinds.entry(s.kind()).or_insert(0) += 1;
+                        }
+                        for (k, v) in &out.probes {
+                            *o.probes.entry(k).or_insert(0) += v;
+                        }
+                        for (k, v) in &out.faults {
+                            *o.faults.entry(k).or_insert(0) += v;
+                        }
+                        o.states.extend(out.states.iter().copied());
+                        if index < 3 {
+                            o.samples.push(serde_json::json!({
+                                "index": index, "seed": seed, "profile": format!("{profile:?}"),
+                                "first_steps": out.steps.iter().take(8).collect::<Vec<_>>(),
+                                "steps": out.steps.len(), "submissions": out.submissions,
+                            }));
+                        }
+                        if let Some(e) = &out.harness_error {
+                            o.harness_errors.push((index, e.clone()));
+                        }
+                        for f in &out.findings {
+                            o.findings
+                                .push((index, f.signature(), f.message.clone(), f.step));
+                        }
+                        if index % RECHECK_EVERY == 0 {
+                            let again =
+                                run(Source::Generate(Gen::new(seed, profile)), property, false);
+                            o.rechecks += 1;
+                            if again.log_hash != out.log_hash || again.steps != out.steps {
+                                o.harness_errors.push((
+                                    index,
+                                    "determinism: two executions of the same seed differ".into(),
+                                ));
+                            }
+                        }
+                        index += jobs;
+                    }
+                    o
+                })
+            })
+            .collect();
+        handles.into_iter().map(|h| h.join().expect("thread")).collect()
+    });
+
+    // merge (independent of the number of jobs)
+    let mut findings: Vec<(u64, String, String, usize)> = Vec::new();
+    let mut harness_errors: Vec<(u64, String)> = Vec::new();
+    let mut total_runs = 0;
+    let mut steps = 0;
+    let mut sim_s = 0;
+    let mut submissions = 0;
+    let mut nontrivial = 0;
+    let mut states: BTreeSet<u64> = BTreeSet::new();
+    let mut logs: BTreeSet<u64> = BTreeSet::new();
+    let mut probes: BTreeMap<&'static str, u64> = BTreeMap::new();
+    let mut faults: BTreeMap<&'static str, u64> = BTreeMap::new();
+    let mut per_profile: BTreeMap<String, u64> = BTreeMap::new();
+    let mut step_kinds: BTreeMap<&'static str, u64> = BTreeMap::new();
+    let mut rechecks = 0;
+    let mut samples: Vec<serde_json::Value> = Vec::new();
+    for o in outs {
+        findings.extend(o.findings);
+        harness_errors.extend(o.harness_errors);
+        total_runs += o.runs;
+        steps += o.steps;
+        sim_s += o.sim_s;
+        submissions += o.submissions;
+        nontrivial += o.nontrivial;
+        states.extend(o.states);
+        logs.extend(o.logs);
+        rechecks += o.rechecks;
+        samples.extend(o.samples);
+        for (k, v) in o.probes {
+            *probes.entry(k).or_insert(0) += v;
+        }
+        for (k, v) in o.faults {
+            *faults.entry(k).or_insert(0) += v;
+        }
+        for (k, v) in o.per_profile {
+            *per_profile.entry(k).or_insert(0) += v;
+        }
+        for (k, v) in o.step_kinds {
+            *step_kinds.entry(k).or_insert(0) += v;
+        }
+    }
+    findings.sort();
+    harness_errors.sort();
+    samples.sort_by_key(|s| s["index"].as_u64());
+
+    // group by signature: first run (lowest index) of each
+    let mut by_sig: BTreeMap<String, (u64, String, usize, u64)> = BTreeMap::new();
+    for (index, sig, msg, step) in &findings {
+        let e = by_sig
+            .entry(sig.clone())
+            .or_insert((*index, msg.clone(), *step, 0));
+        e.3 += 1;
+    }
+    let known = load_known_findings(&args.verif_dir.join("known_findings.txt"));
+    let mut violations = 0;
+    let mut known_hit: Vec<String> = Vec::new();
+    let mut replay_failures = 0;
+    for (sig, (index, msg, step, count)) in &by_sig {
+        if let Some(k) = known
+            .iter()
+            .find(|k| k.property == property && signature_matches(&k.signature, sig))
+        {
+            println!(
+                "KNOWN-FINDING: property={property} signature={sig} {} ({count} runs, e.g. index {index})",
+                k.text
+            );
+            known_hit.push(sig.clone());
+            continue;
+        }
+        violations += 1;
+        // regenerate, minimise, write the replay file, replay in a fresh process
+        let seed = run_seed_of(verif_seed, property, *index);
+        let profile = profile_of(*index);
+        let full = run(Source::Generate(Gen::new(seed, profile)), property, false);
+        let small = shrink(full.steps.clone(), property, sig, *step);
+        let file = ReplayFile {
+            engine: "autoalloc".into(),
+            property: property.into(),
+            seed,
+            index: *index,
+            profile,
+            signature: format!("{property} {sig}"),
+            message: msg.clone(),
+            steps: small,
+        };
+        let name = format!(
+            "{property}-{seed}-{}.json",
+            sig.replace(['@', '/', ':', ' '], "_")
+        );
+        let path = args.verif_dir.join("replays").join(name);
+        write_json(&path, &serde_json::to_value(&file).unwrap());
+        let status = std::env::current_exe()
+            .ok()
+            .and_then(|exe| Command::new(exe).arg("replay").arg(&path).output().ok());
+        let reproduced = status
+            .as_ref()
+            .map(|o| o.status.code() == Some(1))
+            .unwrap_or(false);
+        if !reproduced {
+            replay_failures += 1;
+            eprintln!(
+                "HARNESS: replay of {} in a fresh process did not reproduce the violation",
+                path.display()
+            );
+        }
+        println!(
+            "finding {property} {sig} ({count} runs, first index {index}, {} steps after minimisation): {}",
+            file.steps.len(),
+            msg.lines().next().unwrap_or("")
+        );
+        println!("VIOLATION property={property} replay={}", path.display());
+    }
+    for (index, e) in harness_errors.iter().take(10) {
+        eprintln!("HARNESS ERROR run {index}: {e}");
+    }
+
+    let wall = started.elapsed().as_secs_f64();
+    let evidence = serde_json::json!({
+        "property_id": property,
+        "tier": args.tier,
+        "seed": verif_seed,
+        "level": "exploration",
+        "coverage": {
+            "evaluations": total_runs,
+            "distinct_nontrivial": logs.len(),
+            "rule": "one evaluation = one seeded history of 15-140 steps (queue creation, task submits / cancels that change the demand in a real tako core, scheduling ticks, periodic refreshes, clock advances around the back-off delays, submission outcomes, batch-system state changes and truthful / failing / missing / contradictory status reports, worker connects and losses from known and unknown allocations in adversarial orders, pause / resume / remove) drawn from one PRNG seeded with mix(VERIF_SEED, engine, property, index); six swarm profiles; non-trivial = at least one allocation submission was attempted; distinct = distinct hash of the full step/observation log",
+            "samples": samples,
+            "runs_per_hour": (total_runs as f64 / wall * 3600.0) as u64,
+            "simulated_time_s": sim_s,
+            "steps": steps,
+            "submission_attempts": submissions,
+            "nontrivial_runs": nontrivial,
+            "faults_injected": faults,
+            "probes": probes,
+            "step_kinds": step_kinds,
+            "runs_per_profile": per_profile,
+            "distinct_states": states.len(),
+            "distinct_states_measure": "per queue (paused, number of allocations per lifecycle rank, back-off level, capped failure counters), hashed over all queues",
+            "determinism_rechecks": rechecks,
+            "components": {
+                "real": [
+                    "hyperqueue::server::autoalloc::state (AutoAllocState, AllocationQueue, Allocation, RateLimiter)",
+                    "hyperqueue::server::autoalloc::process::{handle_message, perform_submits, compute_submission_permit, queue_try_submit, do_periodic_update, refresh_queue_allocations, sync_allocation_status, increase_status_error_counter, try_pause_queue, create_queue, remove_queue, prepare_queue_cleanup}",
+                    "tako ServerRef::new_worker_query / compute_new_worker_query with the real scheduler and HiGHS on a real Core fed with real task submissions",
+                    "EventStreamer (allocation events observed through a registered listener)"
+                ],
+                "stub": [
+                    "the select! loop of autoalloc_process: the simulator decides the order of ticks, refreshes and messages and mirrors the two has_active_queues guards (SimAutoAlloc::scheduling_tick / periodic_update)",
+                    "PBS/Slurm QueueHandler: simulated batch system (submission outcomes, status reports, cancellation)",
+                    "workers: connect / loss notifications are injected directly as AutoAllocMessage (the server's worker bookkeeping is not in the loop); core workers are registered in tako without a running worker process",
+                    "clock: tokio paused clock behind now_monotonic and the worker query",
+                    "allocation directories on disk (non-existent paths)"
+                ]
+            },
+            "known_findings_hit": known_hit,
+        },
+        "assumptions": [
+            "allocation ids handed out by the batch system are unique",
+            "HQ_AUTOALLOC_MAX_ALLOCATION_FAILS is unset (documented default 3)",
+            "the demand clause fires only if no waiting (ready or prefilled) task fits the queue's known / CLI worker shape at all; the liveness clause is evaluated only where demand is decidable without the scheduler (one active queue, no workers in the core, nothing queued, min-utilization 0)",
+            "AbsoluteTime (wall clock) values are display-only and not compared"
+        ],
+        "wall_s": wall,
+        "violations": violations,
+        "harness_errors": harness_errors.len() + replay_failures,
+    });
+    write_json(
+        &args.verif_dir.join("evidence").join(format!("{property}.json")),
+        &evidence,
+    );
+    println!(
+        "{property}: {total_runs} runs ({nontrivial} non-trivial, {} distinct), {steps} steps, {sim_s} simulated s, {submissions} submission attempts, {} abstract states, {:.1}s wall; violations={violations} known={} harness_errors={}",
+        logs.len(),
+        states.len(),
+        wall,
+        known_hit.len(),
+        harness_errors.len() + replay_failures
+    );
+    if !harness_errors.is_empty() || replay_failures > 0 {
+        2
+    } else if violations > 0 {
+        1
+    } else {
+        0
+    }
 }
 
 /// Replays a replay file written by this engine; exit code as for `check`.
-pub fn replay(_path: &Path, _verbose: bool) -> i32 {
-    eprintln!("engine autoalloc: not implemented yet");
-    2
+pub fn replay(path: &Path, verbose: bool) -> i32 {
+    crate::sim::panic::install_hook();
+    let file: ReplayFile = match std::fs::read_to_string(path)
+        .map_err(|e| e.to_string())
+        .and_then(|s| serde_json::from_str(&s).map_err(|e| e.to_string()))
+    {
+        Ok(f) => f,
+        Err(e) => {
+            eprintln!("cannot read replay file {}: {e}", path.display());
+            return 2;
+        }
+    };
+    let out = run(Source::Fixed(&file.steps), &file.property, verbose);
+    for l in &out.lines {
+        println!("{l}");
+    }
+    if let Some(e) = &out.harness_error {
+        eprintln!("HARNESS ERROR: {e}");
+        return 2;
+    }
+    let wanted = file
+        .signature
+        .strip_prefix(&format!("{} ", file.property))
+        .unwrap_or(&file.signature)
+        .to_string();
+    for f in &out.findings {
+        println!(
+            "finding {} {} at step {}: {}",
+            f.property,
+            f.signature(),
+            f.step,
+            f.message
+        );
+    }
+    println!("log hash {:016x}", out.log_hash);
+    if out.findings.iter().any(|f| f.signature() == wanted) {
+        println!(
+            "VIOLATION property={} replay={}",
+            file.property,
+            path.display()
+        );
+        1
+    } else {
+        println!("the recorded violation ({}) does not fire", file.signature);
+        0
+    }
+}
+
+/// `hqsim` debugging aid: run one index verbosely (HQSIM_AUTOALLOC_ONE=<property>:<index>)
+pub fn debug_one(property: &str, index: u64, verif_seed: u64) {
+    crate::sim::panic::install_hook();
+    let seed = run_seed_of(verif_seed, property, index);
+    let out = run(
+        Source::Generate(Gen::new(seed, profile_of(index))),
+        property,
+        true,
+    );
+    for l in &out.lines {
+        println!("{l}");
+    }
+    println!("harness_error={:?}", out.harness_error);
+    let again = run(
+        Source::Generate(Gen::new(seed, profile_of(index))),
+        property,
+        true,
+    );
+    for (a, b) in out.lines.iter().zip(again.lines.iter()) {
+        if a != b {
+            println!("DIFF first : {a}\nDIFF second: {b}");
+            break;
+        }
+    }
+    println!("same log: {}", out.log_hash == again.log_hash);
 }
